@@ -6,3 +6,8 @@ claim("C17", "exploration", "bounded-exhaustive enumeration of stream lengths x 
       "Every stream length 0..4096 (thorough 0..16384 plus 2^16 and 2^24 boundaries) x 6 accelerators x both entry points is built by the real code and compared byte-for-byte with an independently written framing and re-parsed the way the driver does.",
       "Pinned framing/ID/config layout in vfw/npu/isa.py is taken as the driver truth; word contents are a counter pattern (the builder is content-oblivious by inspection, two patterns are used for short streams).",
       "DESIGN.md section 4 C17")
+
+claim("C05", "exploration", "bounded-exhaustive enumeration of ordered live-range sets through the three real allocators against a brute-force overlap/alignment/footprint oracle",
+      "Every ordered sequence of <=3 live ranges over a 60-item (start,end,size,alignment) lattice (thorough: 160 items, plus depth 4 on the 60-item lattice, iteration and memory limits) is allocated by Greedy, LinearAlloc and HillClimb through their real entry points; an independent O(n^2) oracle decides overlap, alignment, reported total, peak bound, iteration bound and RNG-history independence.",
+      "'total equals highest end address' is read as hi <= total <= round_up(hi, alignment); sets with more than 4 ranges are only reached through compiled networks (C12).",
+      "DESIGN.md section 4 C05")
